@@ -85,6 +85,15 @@ func split(seq []sk.S, sp [4]int) sk.Script {
 	return s
 }
 
+// extRepeat: about 40 % of the lifetimes list some extension ids repeatedly in service::extensions (modes 1..5 of
+// sk.World.ExtRepeat: the watcher twice adjacent / non-adjacent, a non-watcher twice, the watcher three times, all).
+func extRepeat(rng *rand.Rand) int {
+	if x := rng.Intn(12); x < 5 {
+		return x + 1
+	}
+	return 0
+}
+
 var kindsWeighted = []string{sk.KReceiver, sk.KReceiver, sk.KReceiver, sk.KProcessor, sk.KProcessor, sk.KExporter, sk.KExporter, sk.KExtension, sk.KExtension, sk.KConnector, sk.KShared, sk.KShared}
 
 func pickKind(rng *rand.Rand, sp *sk.Spec) {
@@ -186,6 +195,9 @@ func runWorld(c *driver.Ctx, name string, w *sk.World, sample bool) *sk.Result {
 		return nil
 	}
 	c.Observe("service_lifetimes", 1)
+	if w.ExtRepeat != 0 {
+		c.Observe(fmt.Sprintf("lifetimes_with_repeated_extension_ids_mode%d", w.ExtRepeat), 1)
+	}
 	c.Observe("status_events_delivered", res.Events)
 	c.Observe("fatal_events_delivered", res.FatalSeen)
 	c.Observe("async_errors_forwarded", res.AsyncErrs)
@@ -267,7 +279,7 @@ func run(c *driver.Ctx) {
 			continue
 		}
 		rng := c.CaseRand(g)
-		w := &sk.World{NWatchers: 1 + rng.Intn(2), WatcherPos: rng.Intn(2)}
+		w := &sk.World{NWatchers: 1 + rng.Intn(2), WatcherPos: rng.Intn(2), ExtRepeat: extRepeat(rng)}
 		for n := a * perLifetime; n < (a+1)*perLifetime && n < ex.total(); n++ {
 			sp := sk.Spec{Script: ex.script(n)}
 			pickKind(rng, &sp)
@@ -284,7 +296,7 @@ func run(c *driver.Ctx) {
 			continue
 		}
 		rng := c.CaseRand(g)
-		w := &sk.World{NWatchers: 1 + rng.Intn(2), WatcherPos: rng.Intn(2)}
+		w := &sk.World{NWatchers: 1 + rng.Intn(2), WatcherPos: rng.Intn(2), ExtRepeat: extRepeat(rng)}
 		for i := 0; i < 64; i++ {
 			seq := randSeq(rng, 5+rng.Intn(c.N(4, 6)), rng.Intn(3) == 0)
 			var sp sk.Spec
@@ -311,7 +323,7 @@ func run(c *driver.Ctx) {
 			continue
 		}
 		rng := c.CaseRand(g)
-		w := &sk.World{NWatchers: 1 + rng.Intn(2), WatcherPos: rng.Intn(2)}
+		w := &sk.World{NWatchers: 1 + rng.Intn(2), WatcherPos: rng.Intn(2), ExtRepeat: extRepeat(rng)}
 		for i := 0; i < 48; i++ {
 			seq := randSeq(rng, 6+rng.Intn(7), rng.Intn(2) == 0)
 			seq[len(seq)-1] = sk.Alphabet[(int(e)+i)%8]
@@ -331,7 +343,7 @@ func run(c *driver.Ctx) {
 			continue
 		}
 		rng := c.CaseRand(g)
-		w := &sk.World{NWatchers: 1 + rng.Intn(2), WatcherPos: rng.Intn(2)}
+		w := &sk.World{NWatchers: 1 + rng.Intn(2), WatcherPos: rng.Intn(2), ExtRepeat: extRepeat(rng)}
 		n := 8 + rng.Intn(24)
 		fail := rng.Intn(n)
 		for i := 0; i < n; i++ {
@@ -360,7 +372,7 @@ func run(c *driver.Ctx) {
 			continue
 		}
 		rng := c.CaseRand(g)
-		w := &sk.World{NWatchers: 1 + rng.Intn(2), WatcherPos: rng.Intn(2)}
+		w := &sk.World{NWatchers: 1 + rng.Intn(2), WatcherPos: rng.Intn(2), ExtRepeat: extRepeat(rng)}
 		n := 6 + rng.Intn(20)
 		for i := 0; i < n; i++ {
 			var sp sk.Spec
@@ -389,6 +401,14 @@ func directedRingOverflow(c *driver.Ctx) {
 	// five reports for instances that attach later
 	w.Specs = []sk.Spec{{Kind: sk.KShared, Signals: 3, Script: sk.Script{Start: [][]sk.S{{sk.Perm, sk.OK, sk.OK, sk.OK, sk.OK, sk.OK}}}}}
 	runWorld(c, "directed-C11-a", w, false)
+	// small lifetimes whose service::extensions repeats ids, one per mode, in every run
+	for mode := 1; mode <= 5; mode++ {
+		for pos := 0; pos < 2; pos++ {
+			w := &sk.World{NWatchers: 1 + mode%2, WatcherPos: pos, ExtRepeat: mode}
+			w.Specs = []sk.Spec{{Kind: sk.KReceiver, Script: sk.Script{Run: [][]sk.S{{sk.Recov, sk.OK}}}}, {Kind: sk.KExtension}, {Kind: sk.KExtension}}
+			runWorld(c, fmt.Sprintf("directed-repeated-extension-ids-mode%d-pos%d", mode, pos), w, false)
+		}
+	}
 }
 
 func main() {
@@ -397,7 +417,7 @@ func main() {
 		Level: "exploration",
 		Rule: "a case is one scripted component instance of a real service lifetime: (reports placed inside Start / after start / inside Shutdown / after shutdown, threads per place, start/shutdown failure flags, component kind). " +
 			"Part A enumerates every report sequence over the 8-status alphabet (StatusNone included) up to length 4 (thorough: 5) x every placement; parts B-D are seed-determined samples (longer scripts, a component failing in Start, 2-4 concurrent goroutines per instance, shared multi-signal receivers). " +
-			"Non-trivial: the script contains at least one report the reference machine rejects (illegal, duplicate or post-terminal); distinct = distinct (script, failure flags)",
+			"about 40 % of the lifetimes list extension ids repeatedly in service::extensions (the watcher twice adjacent / non-adjacent, a non-watcher twice, the watcher three times, all of them). Non-trivial: the script contains at least one report the reference machine rejects (illegal, duplicate or post-terminal); distinct = distinct (script, failure flags)",
 		Assumptions: []string{
 			"reference table = docs/component-status.md drawing+text reconciled with the statement: PermanentError->FatalError and FatalError->FatalError illegal; Starting->Stopping and Stopping->RecoverableError tolerated (accepted if delivered, not demanded); a report along any other drawn edge must produce an event",
 			"documented automation taken as reference input: Starting before Start; PermanentError if Start fails else OK if still Starting; Stopping before Shutdown; PermanentError or Stopped after; a shared component reports its lifecycle and every report to each attached instance and replays earlier reports to an instance attached later",
